@@ -120,6 +120,43 @@ add("C09",
     "Trusted: local anomaly score values (C06); greedy model in oracles/reference.py; thresholds >= 0 only.",
     "DESIGN.md section 4, C09")
 
+add("C15",
+    "Hypothesis PBT vs formulas re-implemented from the property text + independent quantile; exhaustive (n,p,k,scale) grid for the MVCAPA families; metamorphic penalty monotonicity for PELT",
+    "Fitted penalty_/threshold_/collective_penalty_/point_penalty_ on generated shapes, scales, bandwidths, levels and savings "
+    "are compared with scale x formula and with scale x value-at-scale-1; tuned thresholds with an independent linear-"
+    "interpolation quantile of the observed training scores and the exceedance bound; the four MVCAPA families are checked on "
+    "a 432-cell grid x 4 scales for shape, sign, monotone cumulative penalty, proportionality, the closed forms of dense and "
+    "sparse and combined == pointwise minimum (exhaustive); PELT at two penalties never gains changepoints.",
+    "Trusted: MovingWindow / CircularBinarySegmentation get_default_threshold as published reference (the property names it); "
+    "chi-square based intermediate penalty only through its stated properties.",
+    "DESIGN.md section 4, C15")
+add("C16",
+    "Hypothesis PBT: sorted-saving argmax reference model with the sparse penalty from its closed form + positional labelling of transform",
+    "Generated multivariate data (p 2..6) with bumps/spikes on column subsets, all collective penalty families x scales, point "
+    "family sparse/dense, three savings, DataFrame input with generated index/columns; for every reported anomaly the savings "
+    "of a fresh instance are sorted and k* recomputed; icolumns must be exactly those k* columns in decreasing order (under "
+    "the tie margin) and transform must mark exactly them. Bounded exploration (n<=50).",
+    "Trusted: saving values (C06), point penalty family values (C15); ties excluded by a 1e-6 margin, then only the order-"
+    "free consequences are asserted.",
+    "DESIGN.md section 4, C16")
+add("C17",
+    "Hypothesis PBT: segment-statistic reference model from a clone's changepoints; user-defined detectors and statistics; all input containers",
+    "Wrapped detector in {user-defined detector returning generated changepoints, PELT, MovingWindow, SeededBinarySegmentation}, "
+    "statistics incl. user functions, bounds drawn from the data's own statistics (boundary equality occurs), data as 1-D/2-D "
+    "array, Series or DataFrame with generated index; the reported anomalies must equal the out-of-range segments of the "
+    "clone's segmentation, each on its own; the user's detector must stay unfitted and unaltered. Bounded (n<=40).",
+    "Trusted: the wrapped detector's own predict (clone) as source of the segmentation.",
+    "DESIGN.md section 4, C17")
+add("C18",
+    "Hypothesis PBT: reproducibility, affine relation to the same-seed standard-normal output, validity predicate for outliers, ValueError for inconsistent arguments",
+    "Generated n (from 1), p, seeds, changepoint / disjoint-anomaly lists, scalar / shared-vector / per-segment means and "
+    "variances, alternating-data arguments, outlier counts and sizes; identical calls must return identical n x p frames with "
+    "index 0..n-1, equal to mean + sqrt(var) x Z on each requested segment and Z elsewhere; outliers exactly n_outliers evenly "
+    "spaced rows first..last; inconsistent arguments raise ValueError. Bounded (n<=60).",
+    "Trusted: scipy's random stream for a fixed seed (the relation is checked against the generator's own zero-mean unit-"
+    "variance output).",
+    "DESIGN.md section 4, C18")
+
 NOT_BUILT_REASON = "check not built yet in this round (designed in DESIGN.md section 4; no claim is made)"
 
 
